@@ -382,6 +382,14 @@ def c15_scope(tier):
     P.append(("literal-param-row", 'func g(Signal s, Signal t) { return (t > 2 && t < s) : 4; }\n' + X + "Signal r = g(7, x);\n"))
     # a parameter named like an outer int / the iterator of the loop around the call (C15-3)
     P.append(("signal-param-shadows-int", 'int k = 6;\nfunc boost(Signal k) { return (k + 1) * 3; }\n' + X + "Signal r = boost(x);\n"))
+    # bundles built from parameters and returned: the members are the signals the ARGUMENTS carry; the result is declared under the caller's name
+    FB = 'func pack(Signal a, Signal b) {\n  Bundle t = { a, b };\n  return t;\n}\n'
+    P.append(("bundle-return", FB + X + "Bundle r = pack(x, y);\n"))
+    P.append(("bundle-return-scaled", 'func sc(Signal a, Signal b, int k) {\n  Bundle t = { a, b };\n  return t * k;\n}\n' + X + "Bundle r = sc(x, y, 3);\nBundle q = sc(y, x, 0 - 2);\n"))
+    P.append(("bundle-return-filter", 'func big(Signal a, Signal b, int k) {\n  Bundle t = { a, b };\n  return (t > k) : t;\n}\n' + X + "Bundle r = big(x, y, 3);\n"))
+    P.append(("bundle-return-used", FB + X + "Bundle r = pack(x, y);\nBundle q = r * 2;\nSignal s = any(r) > 5;\n"))
+    P.append(("bundle-any-in-func", 'func hot(Signal a, Signal b) {\n  Bundle t = { a, b };\n  return any(t) > 5;\n}\n' + X + "Signal r = hot(x, y);\n"))
+    P.append(("bundle-any-in-func-computed-arg", 'func hot(Signal a, Signal b) {\n  Bundle t = { a, b };\n  return any(t) > 5;\n}\n' + X + "Signal q = hot(y, (x + 1) | \"signal-C\");\n"))
     return P
 
 
@@ -477,6 +485,10 @@ def c20_scope(tier):
     P.append(("alias-named-like-param", 'func f(Signal v, Signal total) { return v * 2 + total; }\n' + X + 'Signal k = ("signal-C", 42);\n'
               "Signal c = x + 1;\nSignal v = c;\nSignal total = k;\nSignal r = f(c, y);\n"))
     P.append(("consumed-by-entity", X + 'Signal c = x > 3;\nEntity l = place("small-lamp", 0, 0);\nl.enable = c;\nSignal r = y + 1;\n'))
+    # a bundle returned by a function is a named result like any other
+    P.append(("func-bundle-out", 'func pack(Signal a, Signal b) {\n  Bundle t = { a, b };\n  return t;\n}\nfunc sc(Signal a, Signal b) {\n  Bundle t = { a, b };\n  return t * 2;\n}\n'
+              + X + "Bundle r = pack(x, y);\nBundle q = sc(x, y);\n"))
+    P.append(("alias-bundle-out", X + "Bundle t = { x, y };\nBundle u = t * 2;\nBundle r = u;\nBundle p = t;\n"))
     return P
 
 
@@ -515,6 +527,12 @@ def c03_scope(tier):
               'Signal shown = (m.read() * idle) | "signal-S";\nSignal out = m.read();\n', {"v": [5, 9], "c": [0, 1]}))
     P.append(("cell-in-loop", V + C + 'for i in 0..2 {\n  Memory m: "signal-M";\n  m.write((v + i) | "signal-M", when=c > i);\n'
               '  Entity l = place("small-lamp", i * 2, 0);\n  l.enable = m.read() > 6;\n}\n', {"v": [5, 9], "c": [0, 1, 2]}))
+    # constant conditions: a positive constant always writes (the cell follows v), zero never does; the unconditional write of a value that does
+    # not depend on the cell is the same as when=1
+    for cid, cond in (("1", "1"), ("5", "5"), ("0", "0"), ("int-var", "k - 1"), ("folded-true", "k > 1"), ("folded-false", "k > 2")):
+        P.append((f"constant-enable-{cid}", V + M + f'int k = 2;\nm.write(v | "signal-M", when={cond});\nSignal out = m.read();\n', {"v": vp}))
+    P.append(("unconditional-plain", V + M + 'm.write(v | "signal-M");\nSignal out = m.read();\nSignal twice = m.read() * 2;\n', {"v": vp}))
+    P.append(("unconditional-expr", V + C + M + 'm.write((v * 2 + c) | "signal-M");\nSignal out = m.read();\n', {"v": vp, "c": [0, 1, 3]}))
     return P
 
 
@@ -592,7 +610,10 @@ def c14_scope(tier):
         "bundle-duplicate": ['Bundle b = { ("signal-A", 1), ("signal-A", 2) };', 'Bundle b = { ok1, ("signal-A", 2) };',
                              'Bundle bx = { ("signal-B", 1), ("signal-C", 2) };\nBundle b = { bx, ("signal-B", 9) };',
                              'Bundle bx = { ("signal-B", 1) };\nBundle by = { ("signal-B", 3), ("signal-D", 4) };\nBundle b = { bx, by };',
-                             'Bundle bx = { ("signal-B", 1) };\nBundle b = { bx, bx };'],
+                             'Bundle bx = { ("signal-B", 1) };\nBundle b = { bx, bx };',
+                             # the two members only meet when the call is inlined
+                             'func pk(Signal a, Signal b) {\n  Bundle t = { a, b };\n  return t;\n}\nBundle b = pk(ok1, ok1 + 1);',
+                             'func pk2(Signal a) {\n  Bundle t = { a, ("signal-A", 3) };\n  return t;\n}\nBundle b = pk2(ok1);'],
         "bundle-op-bundle": ['Bundle b1 = { ("signal-A", 1) };\nBundle b2 = { ("signal-B", 1) };\nBundle b3 = b1 + b2;'],
         "bare-bundle-comparison": ['Bundle b1 = { ("signal-A", 1) };\nSignal bad = b1 > 3;'],
         "bundle-select-absent": ['Bundle b1 = { ("signal-A", 1) };\nSignal bad = b1["signal-Z"];'],
